@@ -101,11 +101,11 @@ fn k_next_step() {
 #[cfg_attr(kani, kani::unwind(10))]
 #[cfg_attr(verif_replay, test)]
 fn k_arm_replay() {
-    let mut storage: [u8; 12] = kani::any();
+    let mut storage: [u8; 8] = kani::any();
     let before_buf = storage;
     let mut o = Outbound::new(&mut storage);
     let (nc, nl, nr): (usize, usize, usize) = (kani::any(), kani::any(), kani::any());
-    kani::assume(nc <= 2 && nl <= 2 && nr <= 3);
+    kani::assume(nc <= 1 && nl <= 1 && nr <= 2);
     let mut i = 0;
     while i < nc { o.pending_control.push(PendingControl { action: any_action(), state: any_state() }).unwrap(); i += 1; }
     i = 0;
@@ -117,7 +117,7 @@ fn k_arm_replay() {
         let gap: usize = kani::any::<u8>() as usize % 2;
         let len: usize = 1 + kani::any::<u8>() as usize % 3;
         let offset = cursor + gap;
-        kani::assume(offset + len <= 12);
+        kani::assume(offset + len <= 8);
         o.retained.push(RetainedPacket { packet_id: kani::any(), offset, len, state: any_state() }).unwrap();
         cursor = offset + len;
         i += 1;
@@ -141,11 +141,11 @@ fn k_arm_replay() {
     }
     // arena bytes
     let b: usize = kani::any();
-    kani::assume(b < 12);
+    kani::assume(b < 8);
     let mut first = false;
     let mut j = 0;
     while j < nr { if r0[j].offset == b { first = true; } j += 1; }
     let now = o.retained_packet(b, 1)[0];
     if first { assert!(now == before_buf[b] | 8, "DUP bit not set on a replayed packet"); } else { assert!(now == before_buf[b], "arena byte changed"); }
-    kani::cover!(nr == 3 && nc == 2);
+    kani::cover!(nr == 2 && nc == 1);
 }
